@@ -1,6 +1,7 @@
 //! epdharness: runs the REAL epd-waveshare code on scenario lines (stdin) under a recording
 //! mock HAL and prints canonical traces (stdout).  See /verif/notes/protocol_and_tables.md.
 
+mod big;
 mod panels;
 mod pure;
 mod scen;
@@ -36,7 +37,7 @@ fn run_scenario(sc: &scen::Scenario, out: &mut dyn Write) {
     if sc.panel == "pure" {
         pure::run(sc, &sim);
     } else if sc.panel == "epd12in48b_v2" {
-        pure::run_big(sc, &sim);
+        big::run(sc, &sim);
     } else {
         let mut spi = MockSpi(sim.clone());
         let mut delay = MockDelay(sim.clone());
